@@ -1,5 +1,5 @@
 SPEC = {
-    "lean_modules": ["AM.Props.C02"],
+    "lean_modules": ["AM.Props.C02", "AM.Props.C02I", "AM.Props.C02M"],
     "theorems": [
         "AM.Silence.mutes_correct", "AM.Silence.inv_step", "AM.Silence.reachable_inv",
         "AM.Silence.mutes_eq_bruteforce", "AM.Silence.takes_effect_next_flush", "AM.Silence.effective_after_merge",
@@ -7,22 +7,47 @@ SPEC = {
         "AM.Silence.cacheInv_step", "AM.Silence.cacheInv_time", "AM.Silence.cacheInv_postGC", "AM.Silence.cacheInv_fresh",
         "AM.Silence.step_mergeOne", "AM.Silence.step_gc", "AM.Silence.set_step", "AM.Silence.expire_step",
         "AM.Silence.index_inv_preserved", "AM.Silence.query_eq_filter",
+        # one Mutes call as the code runs it: store operations between its steps (AM.Props.C02I)
+        "AM.Silence.mutesI_atomic", "AM.Silence.mutesI_cacheInv", "AM.Silence.mutes_interleaved_bracket",
+        "AM.Silence.mutesI_linearizable", "AM.Silence.mutesI_next_call_exact", "AM.Silence.mutesI_during_set",
+        "AM.Silence.expire_keepsActive", "AM.Silence.set_keepsActive",
+        "AM.Silence.interleaved_update_lost_counterexample", "AM.Silence.merge_interleaving_not_linearizable",
+        # the matchers stored under an id / the compiled-matcher index (AM.Props.C02M)
+        "AM.Silence.set_keeps_matchers", "AM.Silence.expire_keeps_matchers",
+        "AM.Silence.stMi_setSilence", "AM.Silence.stMi_gc", "AM.Silence.stMi_reload", "AM.Silence.stMi_mergeOne",
+        "AM.Silence.merge_stale_index_counterexample",
+        "AM.Silence.api_run", "AM.Silence.mutes_eq_bruteforce_api",
     ],
     "engines": [
         {"name": "silencer", "pkg": "./silencer", "search_cases": 10000},
     ],
     "rule": "random histories on one real silence.Silences + silence.Silencer under synctest virtual time (1 s grid): Set create/edit "
-            "(compatible and incompatible), Expire, Merge of batches 1-3 (late, duplicated, out-of-order pooled versions; crafted versions "
-            "around the tie / retention boundaries; revivals, remote expiries and re-pendings of stored silences), GC, PostGC eviction of "
-            "random panel subsets, snapshot reload (new Silences + new Silencer), Query; over <= ~6 ids x 7 matcher sets (=, !=, =~, !~, two "
-            "OR-ed sets, UTF-8 name) x a panel of 8 label sets; after every operation Mutes (with a marker in the context, so silencedBy is "
-            "observed) for a random two thirds of the panel, so cache entries of different ages coexist; the driver compares model = impl and "
-            "impl verdict / silencedBy = brute force over the implementation's own dump; non-trivial = tagged branch "
-            "(mutes:fast-path/recheck-cached/scan-since/cached+since/muted, merge:revival/newer/older/tie/duplicate/past-retention, postgc, reload, gc:removed, ...)",
+            "(compatible; every minimal variation of the stored matcher sets - operator only, value only, name only, one matcher added / "
+            "dropped / moved, a set added / dropped / moved; other catalog entries), Expire, Merge of batches 1-3 (late, duplicated, "
+            "out-of-order pooled versions; crafted versions around the tie / retention boundaries; revivals, remote expiries and re-pendings "
+            "of stored silences), GC, PostGC eviction of random panel subsets, snapshot reload (new Silences + new Silencer), Query; over <= ~6 "
+            "ids x 9 matcher sets (=, !=, =~, !~, two OR-ed sets, UTF-8 name) and their variations x a panel of 10 label sets that grows (<= 16) "
+            "by label sets on which an edit's old and new matchers disagree; after every operation Mutes (with a marker in the context, so "
+            "silencedBy is observed) for a random part of the panel, so cache entries of different ages coexist; one call in twelve is "
+            "INTERLEAVED (imutes): 1-2 store operations (Set create - mostly matching this alert - / edit, Expire, Merge, GC) run on the same "
+            "Silences at the start of the 1st / 2nd Silences.Query span of that very Mutes call or at its debug log line before the cache "
+            "write (OpenTelemetry span processor + slog handler: no source hook), i.e. between its version read, re-query, since-scan and "
+            "cache write; the driver replays them on the micro-step model mutesI, compares model = impl, holds every plain answer against the "
+            "brute force over the implementation's own dump with the matchers as dumped (evaluated in Lean, independent of Silences.mi; "
+            "classes stale-matcher-index / interleaved-update-lost / revival / verdict / silencedBy) and every interleaved answer against the "
+            "bracket of mutes_interleaved_bracket over the dumps seen during the call; non-trivial = tagged branch "
+            "(mutes:fast-path/recheck-cached/scan-since/cached+since/muted, imutes:q1|q2|w:<op>, imutes:*-not-reached, merge:revival/newer/older/"
+            "tie/duplicate/past-retention, set:in-place/replace, postgc, reload, gc:removed, ...)",
     "assumptions": [
         "fingerprints are injective on the panel (a cache key is the label set itself)",
-        "versions of one silence id carry the same matcher sets (Op.Ok: msOf); the uuid drawn by Set is not the id of a stored silence",
-        "time does not go backwards between operations (Run); one Mutes call is one atomic step (both clock reads agree)",
+        "matchers: for histories without merges nothing is assumed (mutes_eq_bruteforce_api: msOf is constructed from the history; only "
+        "pairwise distinct uuids); a merged version of an id carries the matcher sets of that id (Op.Ok: msOf) - Silences.Merge neither checks "
+        "this nor recompiles the matcher index (merge_stale_index_counterexample); the generators keep merges inside this hypothesis",
+        "time does not go backwards between operations (Run); all clock reads inside one Mutes call return the same instant (the harness "
+        "clock is frozen during a call); store operations are atomic at lock granularity, a Mutes call is four such accesses (mutesI)",
+        "mutesI_linearizable needs KeepsActive of the interleaved operations (proved for Expire and Set at a frozen clock; an in-place edit "
+        "may move an active silence's start within the current second: excluded by hypothesis hstart); arbitrary merges only satisfy the "
+        "bracket (merge_interleaving_not_linearizable)",
         "regex semantics is a parameter of the theorems (env.re); the driver executes the fragment the generators emit (alternatives of literal, .*, .+, lit.*, .*lit)",
         "theorems and model describe the repaired Silences.Merge of fixes/F1.diff; for the pinned tree: revival_counterexample + mutes_eq_bruteforce_partial (VERIF_F1FIX=0 selects that discipline in the driver)",
         "MuteStage.Exec / marker.SetSilenced are modelled only as 'drop iff Mutes' and 'silencedBy = active ids' (takes_effect_next_flush, second conjunct of mutes_eq_bruteforce); the whole-pipeline variant belongs to engine sys",
